@@ -160,9 +160,10 @@ compact_array_tuple_sketch<Array, Allocator> compact_array_tuple_sketch<Array, A
   if (has_entries) {
     const auto num_entries = read<uint32_t>(is);
     read<uint32_t>(is); // unused
+    if (!is.good()) throw std::runtime_error("error reading from std::istream");
+    std::vector<uint64_t, AllocU64> keys(allocator);
+    read(is, keys, num_entries); // grows with the data: num_entries is not trusted until the keys have arrived
     entries.reserve(num_entries);
-    std::vector<uint64_t, AllocU64> keys(num_entries, 0, allocator);
-    read(is, keys.data(), num_entries * sizeof(uint64_t));
     for (size_t i = 0; i < num_entries; ++i) {
       Array summary(num_values, 0, allocator);
       read(is, summary.data(), num_values * sizeof(typename Array::value_type));
